@@ -84,7 +84,11 @@ def shards(tier):
     n_slots = 2 * len(REGION_FIELDS) + 4 * len(LINE_FIELDS) + 1
     for d in range(1, BOUNDS[tier]['dev'] + 1):
         for first in range(n_slots):
-            out.append({'kind': 'B', 'dev': d, 'first': first})
+            if d < 3:
+                out.append({'kind': 'B', 'dev': d, 'first': first})
+            else:
+                for second in range(first + 1, n_slots):
+                    out.append({'kind': 'B', 'dev': d, 'first': first, 'second': second})
     for bl in range(len(BASELINES)):
         for po in range(len(POLYGONS)):
             out.append({'kind': 'C', 'bl': bl, 'poly': po})
@@ -119,8 +123,9 @@ def run_shard(shard, ctx, tier):
     elif shard['kind'] == 'B':
         sl = slots_2x2()
         d, first = shard['dev'], shard['first']
-        for rest in itertools.combinations(range(first + 1, len(sl)), d - 1):
-            chosen = [first] + list(rest)
+        pre = [first] + ([shard['second']] if 'second' in shard else [])
+        for rest in itertools.combinations(range(pre[-1] + 1, len(sl)), d - len(pre)):
+            chosen = pre + list(rest)
             for vals in itertools.product(*[range(1, sl[i][1]) for i in chosen]):
                 case = {'pid': 0, 'regions': [default_region(2), default_region(2)], 'ro': [['r2', 0], ['r1', 1]] if d % 2 else None,
                         'ver': (sum(vals) + d) % 2, 'via': 'string'}
